@@ -160,6 +160,20 @@ func (fr *Frame) call(st *State, cc *ssa.CallCommon, pos token.Pos) (*Val, *Stat
 		args = append(args, fr.val(st, a))
 	}
 	name := callName(cc)
+	// ghost: how many calls to a callee of this (short) name this path has executed so far - `calls("Name")` in specifications,
+	// for ordering clauses ("X is built only after Y has checked it"). Exact on straight-line code; not carried through loops.
+	if fr.Top {
+		short := name
+		if i := strings.LastIndex(short, "."); i >= 0 {
+			short = short[i+1:]
+		}
+		key := "calls:" + short
+		cur, ok := st.Ghost[key]
+		if !ok {
+			cur = Num(0)
+		}
+		defer func(k string, c *Term) { st.Ghost[k] = Add(c, Num(1)) }(key, cur)
+	}
 	// caller-side assertions attached to this callee
 	if fr.Top && fr.Con != nil && c.noObligations == 0 {
 		for i, ac := range fr.Con.AtCalls {
